@@ -31,7 +31,10 @@ def run(chk):
     # consumers that do not read the members while iterating (or read a single byte): the iterator and the
     # members' readers are independent of how much of each member has been consumed
     sub = list(range(0, len(cases), 3))
-    for mode in (b"skip", b"one"):
+    # ... and of the read cursor of the reader handed to LoadAr (sniff: the caller read the magic first; drain: it read
+    # everything, e.g. to hash the file): LoadAr takes an io.ReaderAt
+    # ... (eagereof: an io.ReaderAt that reports io.EOF together with the last bytes of its source, which the contract allows)
+    for mode in (b"skip", b"one", b"sniff", b"drain", b"eagereof"):
         lc = [("ariterlazy", [cases[k][1][0], mode]) for k in sub]
         li = chk.run_impl(lc)
         chk.record("lazy-consumer-" + mode.decode(), lc, li, lambda c, r: r.startswith("[ "))
